@@ -5,7 +5,7 @@
 EXTENDS Mux, Json, SequencesExt
 
 CONSTANTS Tier,  \* "quick" | "thorough"
-          Part   \* 0 = every group, 1..3 = one third of the groups (run in parallel)
+          Part   \* 0 = every group, 1..4 = a part of the groups (run in parallel; 4 = nested routing)
 
 NameSeq == << Nm("", ""), Nm("", "x"), Nm("", "y"), Nm("A", ""), Nm("A", "x"), Nm("A", "y"),
               Nm("B", ""), Nm("B", "x"), Nm("B", "y") >>
@@ -119,18 +119,45 @@ VNSTop == [i \in 1..(8 * 8 * 5) |->
              IN VecX(kt, m, i % 2, {82}, e, DerivedProgs(e, m + i))]
           \o [i \in 1..(8 * 5) |-> VecX(1, SweepMasks[D(i, 1, 8) + 1], i % 2, {82}, TopEl(InNames[D(i, 8, 5) + 1]), <<>>)]
           \o [i \in 1..8 |-> VecX(D(i, 1, 8) + 2, 0, 0, {82}, St(D(i, 1, 8) + 2, WType(D(i, 1, 8) + 2), "f", <<>>), <<2>>)]
+(* nested routing: the handler of invocation `at` of the outer message / presence routes an inner stanza (its own  *)
+(* reader and encoder) through the same multiplexer, before or after it reads what it was handed; the expectation *)
+(* is Mux!NestedAt: every handler - also those of the outer stanza's later children - obtains ITS stanza whole    *)
+St2(kt, t, kids) == El(KT[kt][1], "NS", KT[kt][1], t, "i2", "f", kids)
+InnerSeq == << St2(6, "normal", Kids(<<4>>)), St2(6, "", Kids(<<5, 1>>)), St2(6, "normal", <<>>), St2(8, "", Kids(<<2, 6, 3>>)),
+               St2(2, "get", Kids(<<1>>)), St2(7, "chat", Kids(<<1, 4>>)) >>
+HasElem(s) == \E i \in 1..Len(s) : s[i] # 6
+NestOuter == IF Tier = "quick" THEN SelectSeq(KS2, HasElem) \o << <<1, 4, 2>>, <<1, 6, 4>>, <<5, 1, 1>> >>
+             ELSE SelectSeq(KS3, HasElem)
+AtWhen == << <<1, "pre">>, <<1, "post">>, <<2, "pre">>, <<2, "post">>, <<3, "pre">> >>
+NAtWhen == IF Tier = "quick" THEN 4 ELSE 5
+OutAltN(a) == [inv |-> [i \in 1..Len(a.inv) |-> [h |-> Idx(a.inv[i].h), seen |-> a.inv[i].seen, eof |-> a.inv[i].eof]],
+               wire |-> a.wire, wire2 |-> a.wire2]
+VNest == [i \in 1..(2 * 8 * Len(NestOuter) * Len(InnerSeq) * NAtWhen) |->
+            LET kt == IF D(i, 1, 2) = 0 THEN 6 ELSE 8
+                m == SweepMasks[D(i, 2, 8) + 1]
+                s == NestOuter[D(i, 16, Len(NestOuter)) + 1]
+                b == InnerSeq[D(i, 16 * Len(NestOuter), Len(InnerSeq)) + 1]
+                aw == AtWhen[D(i, 16 * Len(NestOuter) * Len(InnerSeq), NAtWhen) + 1]
+                e == St(kt, WType(kt), "f", Kids(s))
+                pa == DerivedProgs(e, m + Code(s) + i)
+                pb == DerivedProgs(b, i)
+            IN [kt |-> kt, mask |-> m, oth |-> 1, extra |-> <<>>, el |-> e, progs |-> pa,
+                nest |-> [at |-> aw[1], when |-> aw[2], el |-> b, progs |-> pb],
+                alts |-> << OutAltN(NestedAt(TableOf(TableIdx(kt, m, 1)), e, pa, aw[1], aw[2], b, pb)) >>]]
 Deep == IF Tier = "quick" THEN 2 ELSE 3
 Groups == << VTop, VIq, VIqEmpty, VIqTwo, StanzaBase(6, Deep), StanzaBase(8, Deep), StanzaBase(7, 1),
              StanzaBase(9, 1), VMsgType, Sweep(6, 2, NProg), Sweep(8, 2, NProg),
-             IF Tier = "quick" THEN <<>> ELSE Sweep(6, 3, 4), VNSTop >>
+             IF Tier = "quick" THEN <<>> ELSE Sweep(6, 3, 4), VNSTop, VNest >>
 
 InPart(g) == Part = 0 \/ (Part = 1 /\ g \in {1, 2, 3, 4, 7, 8, 9, 13}) \/ (Part = 2 /\ g \in {5, 10})
-             \/ (Part = 3 /\ g \in {6, 11, 12})
+             \/ (Part = 3 /\ g \in {6, 11, 12}) \/ (Part = 4 /\ g = 14)
 ASSUME JsonSerialize("mux_universe.json",
-                     [pats |-> PatU, others |-> [kt \in 1..9 |-> SetToSeq(Others(kt))]])
-ASSUME \A g \in 1..13 : InPart(g) => ndJsonSerialize("mux_vectors_" \o ToString(g) \o ".ndjson", Groups[g])
+                     [pats |-> PatU, others |-> [kt \in 1..9 |-> SetToSeq(Others(kt))],
+                      \* the ways the driver makes the multiplexer of a vector (Mux!Ctors): the expectation does not depend on it
+                      ctors |-> <<"new", "zero", "late", "afteruse">>])
+ASSUME \A g \in 1..14 : InPart(g) => ndJsonSerialize("mux_vectors_" \o ToString(g) \o ".ndjson", Groups[g])
 ASSUME Part \in {0, 1} => ndJsonSerialize("mux_reg.ndjson", VReg)
-ASSUME PrintT(<<"EMITTED", [g \in 1..13 |-> IF InPart(g) THEN Len(Groups[g]) ELSE 0]>>)
+ASSUME PrintT(<<"EMITTED", [g \in 1..14 |-> IF InPart(g) THEN Len(Groups[g]) ELSE 0]>>)
 
 ENext == UNCHANGED vars
 =============================================================================
